@@ -223,6 +223,72 @@ def run(ctx):
 
     ctx.borrow("c17", "C17-R1", "C14-R6", "any border style: customising one table's style never changes another table - the object handed out by a memoising factory "
                "(BorderStyle.none/ascii/solid) is copied, never mutated or handed on as a style's own")
+    # ---------------------------------------------------------------- R10
+    r = ctx.rule("C14-R10", "KEY", "'no line is wider than the terminal': a cell is wrapped to the width of its column - what textwrap receives as width is the column length that "
+                 "the width distribution computed, unmodified (markup is removed before measuring, it is not added back to the budget)", reference=1)
+    cw = ctx.cls("clikit.ui.components.cell_wrapper.CellWrapper")
+    n10 = 0
+    for name, m in sorted(cw.methods.items()):
+        for c in q.calls(m):
+            fn_ = c.func.attr if isinstance(c.func, ast.Attribute) else (c.func.id if isinstance(c.func, ast.Name) else None)
+            if fn_ not in ("wrap", "fill") or not (isinstance(c.func, ast.Name) or norm(c.func.value) == "textwrap"):
+                continue
+            n10 += 1
+            w = c.args[1] if len(c.args) > 1 else next((k.value for k in c.keywords if k.arg == "width"), None)
+            if isinstance(w, ast.Name) and w.id in m.params:
+                r.ok("%s: %s wraps to the column length parameter `%s`" % (m.short, norm(c.func), w.id))
+            elif isinstance(w, ast.Subscript) and is_self_attr(w.value) and "length" in w.value.attr:
+                r.ok("%s: %s wraps to %s" % (m.short, norm(c.func), norm(w)))
+            else:
+                r.fail(m, c, "wrap width %s" % (norm(w)[:50] if w is not None else "default"), "%s wraps a cell to `%s` instead of the column's length: the cell's lines come out wider than the column the width "
+                       "distribution gave it - the table exceeds the terminal width (or a later column's width goes negative and textwrap raises)" % (m.short, norm(w)[:60] if w is not None else "textwrap's default of 70"))
+    if n10 == 0:
+        # wrapping through a wrapper object: its width is configured elsewhere - the object rule below (R11) and the width budget (R3) still apply
+        ctx.require(any(isinstance(c.func, ast.Attribute) and c.func.attr in ("wrap", "fill") for m in cw.methods.values() for c in q.calls(m)), "CellWrapper no longer wraps its cells")
+        r.vacuous_ok = True
+        r.note("cells are wrapped through a wrapper object, not by textwrap.wrap(text, width)")
+
+    # ---------------------------------------------------------------- R12
+    r = ctx.rule("C14-R12", "RANGE", "'rendering succeeds' after any sequence of style settings: the alignment list is extended exactly when the column lies beyond its end - the guard "
+                 "of the extension is `col >= len(list)` (written `col > len(list) - 1`), neither weaker nor stronger", reference=1)
+    ts = ctx.cls("clikit.ui.style.table_style.TableStyle")
+    n12 = 0
+    for name, m in sorted(ts.methods.items()):
+        prm = [a for a in m.params if a != "self"]
+        for node in walk_no_nested(m.node):
+            if not (isinstance(node, ast.If) and isinstance(node.test, ast.Compare) and len(node.test.ops) == 1 and isinstance(node.test.left, ast.Name) and node.test.left.id in prm):
+                continue
+            if not any(isinstance(x, ast.AugAssign) and isinstance(x.op, ast.Add) for st in node.body for x in ast.walk(st)):
+                continue
+            rhs = node.test.comparators[0]
+            c = 0
+            if isinstance(rhs, ast.BinOp) and isinstance(rhs.op, (ast.Sub, ast.Add)) and isinstance(rhs.right, ast.Constant) and isinstance(rhs.right.value, int):
+                c = rhs.right.value if isinstance(rhs.op, ast.Sub) else -rhs.right.value
+                rhs = rhs.left
+            if not (isinstance(rhs, ast.Call) and isinstance(rhs.func, ast.Name) and rhs.func.id == "len"):
+                continue
+            n12 += 1
+            op = node.test.ops[0]
+            t = (1 - c) if isinstance(op, ast.Gt) else (-c if isinstance(op, ast.GtE) else None)
+            if t == 0:
+                r.ok("%s: the list is extended exactly when %s >= len" % (m.short, node.test.left.id))
+            else:
+                r.fail(m, node.test, "extension guard `%s`" % norm(node.test), "%s extends the alignment list under `%s`, which is not `%s >= len(list)`: %s" % (m.short, norm(node.test), node.test.left.id,
+                       "setting the last configured column again grows the list by one more entry each time - get_column_alignments then indexes past the columns of the table and render raises IndexError"
+                       if (t is not None and t < 0) else "a column just beyond the end is stored without extending the list - IndexError"))
+    if n12 == 0:
+        r.vacuous_ok = True
+
+    from .c17 import memo_key_rule
+    r = ctx.rule("C14-R13", "CACHEKEY", "'no line is wider than the terminal': a wrapped cell that is kept for reuse is kept under everything it was computed from - the text AND the width it was "
+                 "wrapped to (the same text in two columns of different width is two results)", reference=0)
+    memo_key_rule(ctx, r, only_module="clikit.ui.components.cell_wrapper", instance_level=True)
+
+    from .c17 import module_objects_rule
+    r = ctx.rule("C14-R11", "OWNER", "'rendering twice gives the same lines': a render works with objects of its own - a module-level instance in the table modules (a shared "
+                 "TextWrapper, say) is never configured per call (same rule as C17-R13)", reference=0)
+    module_objects_rule(ctx, r, mod_pred=lambda mn: mn.startswith(("clikit.ui", "clikit.utils")))
+
     return ctx.results
 
 
